@@ -77,7 +77,9 @@ fn push(s: &mut Sink, props: &'static [&'static str], clause: &'static str, sig:
         }
         return;
     }
-    if s.v.len() < 64 {
+    // bounded per clause (so that a flood of one clause cannot starve another), and overall
+    let same = s.v.iter().filter(|v| v.clause == clause).count();
+    if same < 6 && s.v.len() < 400 {
         let step = crate::alloc::step();
         s.v.push(Violation { props, clause, sig, msg, step });
     }
